@@ -126,59 +126,116 @@ theorem pairwise_of_anyUpperLess_false {D : Mat} {idx : List ℕ} {d : ℕ}
   rw [← e]
   exact anyUpperLess_false h a h1 b h2 (by omega)
 
-/-- whatever the sort keys do, the loop returns a sub-list of the indices it started from whose
-    pairwise distances are all `≥ d` -/
-theorem curvLoop_spec (keyMul : ℕ → ℕ → ℤ) (D : Mat) (diam d : ℕ) (fuel : ℕ) (idx : List ℕ) :
-    (curvLoop keyMul D diam d fuel idx).Sublist idx ∧
-      (curvLoop keyMul D diam d fuel idx).Pairwise fun i j => d ≤ ent D i j := by
-  induction fuel generalizing idx with
-  | zero => simp [curvLoop]
+theorem eraseIdx_map {α β : Type} (f : α → β) (l : List α) (r : ℕ) :
+    (l.map f).eraseIdx r = (l.eraseIdx r).map f := by
+  induction l generalizing r with
+  | nil => simp
+  | cons a l ih =>
+    cases r with
+    | zero => simp
+    | succ r => simp [List.eraseIdx_cons_succ, ih]
+
+theorem delRowCol_sub (D : Mat) (idx : List ℕ) (r : ℕ) :
+    delRowCol (sub D idx) r = sub D (idx.eraseIdx r) := by
+  unfold delRowCol sub
+  rw [eraseIdx_map, List.map_map]
+  apply List.map_congr_left
+  intro i _
+  simp only [Function.comp]
+  rw [eraseIdx_map]
+
+/-- a square matrix is its own principal submatrix on all indices -/
+theorem sub_range {D : Mat} {n : ℕ} (hlen : D.length = n) (hrow : ∀ r ∈ D, r.length = n) :
+    sub D (List.range n) = D := by
+  apply List.ext_getElem
+  · simp [sub, hlen]
+  · intro i h1 h2
+    have hr : D[i].length = n := hrow _ (List.getElem_mem h2)
+    apply List.ext_getElem
+    · simp [sub, hr]
+    · intro j h3 h4
+      simp [sub, List.getD, h2, h4]
+
+theorem colStats_length_le (K : Mat) (d : ℕ) : (colStats K d).length ≤ K.length := by
+  unfold colStats
+  have : ∀ (rows : Mat) (acc : List (ℕ × ℕ)),
+      (rows.foldl (fun acc row => List.zipWith (fun (cs : ℕ × ℕ) x =>
+        if x < d then (cs.1 + 1, cs.2) else (cs.1, cs.2 + x)) acc row) acc).length ≤ acc.length := by
+    intro rows
+    induction rows with
+    | nil => intro acc; simp
+    | cons row rows ih =>
+      intro acc
+      simp only [List.foldl_cons]
+      refine le_trans (ih _) ?_
+      simp only [List.length_zipWith]
+      exact min_le_left _ _
+  simpa using this K (List.replicate K.length (0, 0))
+
+theorem argmin_sortKeys_lt (keyMul : ℕ → ℕ → ℤ) {K : Mat} (diam d : ℕ) (hK : K ≠ []) :
+    argmin (sortKeys keyMul K diam d) < K.length := by
+  have hpos : 0 < K.length := List.length_pos_iff.2 hK
+  by_cases hk : sortKeys keyMul K diam d = []
+  · rw [hk]; simpa [argmin] using hpos
+  · have h1 := argmin_lt hk
+    have h2 : (sortKeys keyMul K diam d).length ≤ K.length := by
+      unfold sortKeys; rw [List.length_map]; exact colStats_length_le K d
+    omega
+
+/-- whatever the sort keys do, the loop returns the principal submatrix of `D` on a sub-list of the
+    indices it started from, and the pairwise distances of those indices are all `≥ d` -/
+theorem curvLoop_spec (keyMul : ℕ → ℕ → ℤ) (D : Mat) (diam d : ℕ) (fuel : ℕ) (K : Mat)
+    (idx : List ℕ) (hK : K = sub D idx) :
+    (curvLoop keyMul diam d fuel K idx).2.Sublist idx ∧
+      ((curvLoop keyMul diam d fuel K idx).2.Pairwise fun i j => d ≤ ent D i j) ∧
+      (curvLoop keyMul diam d fuel K idx).1 = sub D (curvLoop keyMul diam d fuel K idx).2 := by
+  induction fuel generalizing K idx with
+  | zero => simp [curvLoop, sub]
   | succ fuel ih =>
     simp only [curvLoop]
     split
-    · obtain ⟨h1, h2⟩ := ih (idx.eraseIdx (argmin (sortKeys keyMul (sub D idx) diam d)))
-      exact ⟨h1.trans (List.eraseIdx_sublist _ _), h2⟩
+    · obtain ⟨h1, h2, h3⟩ := ih (delRowCol K (argmin (sortKeys keyMul K diam d)))
+        (idx.eraseIdx (argmin (sortKeys keyMul K diam d))) (by rw [hK, delRowCol_sub])
+      exact ⟨h1.trans (List.eraseIdx_sublist _ _), h2, h3⟩
     · rename_i hc
-      exact ⟨List.Sublist.refl _, pairwise_of_anyUpperLess_false (by simpa using hc)⟩
+      rw [hK] at hc
+      exact ⟨List.Sublist.refl _, pairwise_of_anyUpperLess_false (by simpa using hc), hK⟩
 
-theorem sortKeys_length (keyMul : ℕ → ℕ → ℤ) (K : Mat) (diam d : ℕ) :
-    (sortKeys keyMul K diam d).length = K.length := by simp [sortKeys]
-
-/-- the recursion bound of `curvLoop` (the number of kept indices) is never exhausted -/
-theorem curvLoop_fuel_succ (keyMul : ℕ → ℕ → ℤ) (D : Mat) (diam d fuel : ℕ) (idx : List ℕ)
-    (h : idx.length ≤ fuel) :
-    curvLoop keyMul D diam d (fuel + 1) idx = curvLoop keyMul D diam d fuel idx := by
-  induction fuel generalizing idx with
+/-- the recursion bound of `curvLoop` (the number of rows) is never exhausted -/
+theorem curvLoop_fuel_succ (keyMul : ℕ → ℕ → ℤ) (diam d fuel : ℕ) (K : Mat) (idx : List ℕ)
+    (h : K.length ≤ fuel) (hidx : idx.length = K.length) :
+    curvLoop keyMul diam d (fuel + 1) K idx = curvLoop keyMul diam d fuel K idx := by
+  induction fuel generalizing K idx with
   | zero =>
-    have : idx = [] := List.length_eq_zero_iff.1 (by omega)
+    have : K = [] := List.length_eq_zero_iff.1 (by omega)
     subst this
-    simp [curvLoop, sub, anyUpperLess]
+    have : idx = [] := List.length_eq_zero_iff.1 (by simpa using hidx)
+    subst this
+    simp [curvLoop, anyUpperLess]
   | succ fuel ih =>
     conv_lhs => rw [curvLoop]
     conv_rhs => rw [curvLoop]
     split
     · rename_i hc
+      have hne : K ≠ [] := by
+        intro e; subst e; simp [anyUpperLess] at hc
+      have hlt := argmin_sortKeys_lt keyMul diam d hne
       apply ih
-      have hne : idx ≠ [] := by
-        intro e; subst e; simp [sub, anyUpperLess] at hc
-      have hk : sortKeys keyMul (sub D idx) diam d ≠ [] := by
-        intro e
-        have := sortKeys_length keyMul (sub D idx) diam d
-        rw [e, sub_length] at this
-        exact hne (List.length_eq_zero_iff.1 this.symm)
-      have hlt := argmin_lt hk
-      rw [sortKeys_length, sub_length] at hlt
-      rw [List.length_eraseIdx, if_pos hlt]
-      omega
+      · unfold delRowCol
+        rw [List.length_map, List.length_eraseIdx, if_pos hlt]
+        omega
+      · unfold delRowCol
+        rw [List.length_map, List.length_eraseIdx, List.length_eraseIdx, hidx]
     · rfl
 
-theorem largestBoundedCurvatureIdx_spec (keyMul : ℕ → ℕ → ℤ) (D : Mat) (diam d : ℕ) :
-    (largestBoundedCurvatureIdx keyMul D diam d).Sublist (List.range D.length) ∧
-      (largestBoundedCurvatureIdx keyMul D diam d).Pairwise fun i j => d ≤ ent D i j := by
-  unfold largestBoundedCurvatureIdx
-  split
-  · simp
-  · exact curvLoop_spec keyMul D diam d D.length (List.range D.length)
+theorem largestBoundedCurvature_spec (keyMul : ℕ → ℕ → ℤ) {D : Mat} {n : ℕ} (hlen : D.length = n)
+    (hrow : ∀ r ∈ D, r.length = n) (diam d : ℕ) :
+    (largestBoundedCurvatureIdx keyMul D diam d).Sublist (List.range n) ∧
+      ((largestBoundedCurvatureIdx keyMul D diam d).Pairwise fun i j => d ≤ ent D i j) ∧
+      (largestBoundedCurvature keyMul D diam d).1 = sub D (largestBoundedCurvatureIdx keyMul D diam d) := by
+  unfold largestBoundedCurvatureIdx largestBoundedCurvature
+  rw [hlen]
+  exact curvLoop_spec keyMul D diam d n D (List.range n) (sub_range hlen hrow).symm
 
 /-! ### Theorems A and B -/
 
